@@ -290,11 +290,11 @@ def Sess.removeSimple (s : Sess) (k : Kind) (ie : RuleIE) (c : Ctx) : Sess × Ct
 def bumpRef (us : List (Nat × URRInfo)) (u : Nat) : List (Nat × URRInfo) :=
   us.map fun p => (p.1, if p.1 == u then { p.2 with refPdrNum := p.2.refPdrNum + 1 } else p.2)
 
-/-- `CreatePDR`: pdrid defaults to 0; every URR ID child bumps the reference count of a known URR;
-    the id is recorded (overwriting) before the driver call -/
+/-- `CreatePDR`: pdrid defaults to 0; every DISTINCT URR ID child bumps the reference count of a known URR (a PDR
+    refers to a URR once, however often the id is repeated); the id is recorded (overwriting) before the driver call -/
 def Sess.createPDR (s : Sess) (ie : RuleIE) (c : Ctx) : Sess × Ctx :=
   let pdrid := ie.id.getD 0
-  let urrs' := ie.urrs.foldl bumpRef s.urrs
+  let urrs' := ie.urrs.eraseDups.foldl bumpRef s.urrs
   let s' := { s with urrs := urrs', pdrs := alSet s.pdrs pdrid ie.urrs.eraseDups }
   let (c', _) := c.call { seid := s.localID, op := .create, kind := .pdr, id := pdrid }
   (s', c')
